@@ -219,6 +219,17 @@ impl Op {
         }
     }
 
+    /// the letters of the encoding (the operation without its arguments)
+    pub fn letters(&self) -> String {
+        let a = self.args();
+        let base = if a.is_empty() {
+            self.encode()
+        } else {
+            self.with_args(&vec![0; a.len()]).encode()
+        };
+        base.chars().take_while(|c| c.is_ascii_alphabetic()).collect()
+    }
+
     pub fn is_create(&self) -> bool {
         matches!(self, Op::NewIter | Op::NewRange(..) | Op::NewNames)
     }
